@@ -140,7 +140,13 @@ impl WorkStealingQueue {
     /// Pop a task from the local queue (highest priority first)
     pub fn pop_local(&self) -> Option<Box<dyn Task>> {
         // Pop from front since tasks are sorted by priority (highest first)
-        self.local_queue.lock().unwrap_or_else(|e| e.into_inner()).pop_front()
+        if let Some(task) = self.local_queue.lock().unwrap_or_else(|e| e.into_inner()).pop_front() {
+            return Some(task);
+        }
+        // Tasks that balance() parked in the steal queue still belong to this worker:
+        // when no other worker steals them (e.g. a single-worker executor) the owner
+        // must drain them itself, otherwise they are never executed.
+        self.steal_queue.lock().unwrap_or_else(|e| e.into_inner()).pop_front()
     }
 
     /// Steal a task from this queue (FIFO for load balancing)
